@@ -245,12 +245,10 @@ def eval_net(ctx, net, rng):
         ctx.add_to_set("schedule_scripts", desc.split("=")[0] + "=" + str(len(desc)))
         check_bookkeeping(ctx, net, res, sd)
         multi = any(len(set(s for s, _ in f["pairs"])) != len(f["pairs"]) for f in base["facts"])
-        diff = None
-        for k, (da, db) in enumerate(zip(base["digests"], res["digests"])):
-            comp = netkit.first_difference(da, db)
-            if comp is not None:
-                diff = (k + 1, comp)
-                break
+        diff, after_rounding = netkit.compare_runs(base["digests"], res["digests"])
+        if diff is not None and after_rounding:
+            ctx.count("schedules_trivial_after_rounding_divergence")
+            continue
         if diff is not None and diff[1].endswith(".decision") and netkit.decision_near_tie(base["digests"][diff[0] - 1], res["digests"][diff[0] - 1], diff[1]):
             # the two decisions are (nearly) equally good under the identity run's rewards: a tie broken by rounding-level
             # differences of estimate-derived rewards; everything downstream legitimately differs. Trivial, not agreement.
@@ -303,9 +301,10 @@ def replay(ctx, w):
         ctx.check(False, (res["error"] or base["error"])[0], str(res["error"] or base["error"]), w, mon="order_indep")
         return
     check_bookkeeping(ctx, net, res, sd)
-    for k, (da, db) in enumerate(zip(base["digests"], res["digests"])):
-        comp = netkit.first_difference(da, db)
-        if comp is not None:
-            ctx.check(False, f"order-dependence-{comp.split('.')[-1]}", f"step {k + 1} component {comp} differs", w, mon="order_indep")
-            return
+    diff, after_rounding = netkit.compare_runs(base["digests"], res["digests"])
+    if diff is not None and not after_rounding:
+        ctx.check(False, f"order-dependence-{diff[1].split('.')[-1]}", f"step {diff[0]} component {diff[1]} differs", w, mon="order_indep")
+        return
+    if diff is not None:
+        ctx.count("schedules_trivial_after_rounding_divergence")
     ctx.check(True, "order-dependence", "", w, mon="order_indep")
